@@ -123,3 +123,31 @@ package db
 //@   modifies *
 //@   callback f preserves len(commits())
 //@   ensures len(commits()) == old(len(commits()))
+
+// Iteration over a bucket (read-only view of committed entries in a range).  Ghost: iterkey = current key of each
+// iterator, iterbkt = identity of the bucket it iterates.
+//@ func Bucket.NewIterator
+//@   props C01 C09 C10 C11 C17
+//@   requires recv != nil
+//@   ensures result != nil && ghost("iterbkt", result) == bid(recv)
+
+//@ func Iterator.Next
+//@   props C01 C09 C10 C11 C17
+//@   modifies gmap("iterkey")
+//@   ensures gsameExcept("iterkey", recv)
+//@   ensures result ==> has(bmapI(ghost("iterbkt", recv)), ggets("iterkey", recv)) && len(ggets("iterkey", recv)) > 0
+
+//@ func Iterator.Key
+//@   props C01 C09 C10 C11 C17
+//@   pure
+//@   ensures strOf(result) == ggets("iterkey", recv)
+
+//@ func Iterator.Value
+//@   props C01 C09 C10 C11 C17
+//@   pure
+//@   ensures strOf(result) == bmapI(ghost("iterbkt", recv))[ggets("iterkey", recv)]
+
+//@ func Iterator.Error
+//@   pure
+//@ func Iterator.Release
+//@   pure
